@@ -188,7 +188,140 @@ class Untuple(ast.NodeTransformer):
         return n
 
 
-T = {'negcmp': NegCompare, 'splitisi': SplitIsinstance, 'splitwith': SplitWith, 'mergewith': MergeWith, 'tern2if': TernaryToIf, 'if2tern': IfToTernary, 'kwtimeout': KwTimeout, 'postimeout': PosTimeout, 'earlycont': EarlyContinue, 'rettern': RetTern, 'retif': RetIf, 'demorgan': DeMorgan, 'whilecond': WhileCond, 'swapeq': SwapEq, 'splitin': SplitIn, 'dictlit': DictLit, 'unchain': Unchain, 'untuple': Untuple}
+class OrAssign(ast.NodeTransformer):
+    """t = a or b  ->  t = a; if not t: t = b   (plain name or self attribute as target)"""
+    def visit_Assign(self, n):
+        if isinstance(n.value, ast.BoolOp) and isinstance(n.value.op, ast.Or) and len(n.value.values) == 2 and len(n.targets) == 1 and isinstance(n.targets[0], (ast.Name, ast.Attribute)):
+            count[0] += 1
+            t = n.targets[0]
+            ld = copy.deepcopy(t); ld.ctx = ast.Load()
+            return [ast.Assign(targets=[t], value=n.value.values[0]), ast.If(test=ast.UnaryOp(op=ast.Not(), operand=ld), body=[ast.Assign(targets=[copy.deepcopy(t)], value=n.value.values[1])], orelse=[])]
+        return n
+
+
+class SplitExcept(ast.NodeTransformer):
+    def visit_Try(self, n):
+        self.generic_visit(n)
+        hs = []
+        for h in n.handlers:
+            if isinstance(h.type, ast.Tuple) and len(h.type.elts) >= 2:
+                count[0] += 1
+                for e in h.type.elts:
+                    hs.append(ast.ExceptHandler(type=e, name=h.name, body=copy.deepcopy(h.body)))
+            else:
+                hs.append(h)
+        n.handlers = hs
+        return n
+
+
+class RetNone(ast.NodeTransformer):
+    def visit_Return(self, n):
+        if n.value is None:
+            count[0] += 1
+            return ast.Return(value=ast.Constant(None))
+        if isinstance(n.value, ast.Constant) and n.value.value is None:
+            count[0] += 1
+            return ast.Return(value=None)
+        return n
+
+
+def _terminal(body):
+    return bool(body) and isinstance(body[-1], (ast.Return, ast.Raise, ast.Continue, ast.Break))
+
+
+class ElseRemove(ast.NodeTransformer):
+    """if c: ...; return  else: B   ->   if c: ...; return   B"""
+    def _fix(self, body):
+        out = []
+        for st in body:
+            if isinstance(st, ast.If) and st.orelse and _terminal(st.body) and not (len(st.orelse) == 1 and isinstance(st.orelse[0], ast.If)):
+                count[0] += 1
+                out.append(ast.If(test=st.test, body=st.body, orelse=[]))
+                out.extend(st.orelse)
+            else:
+                out.append(st)
+        return out
+    def generic_visit(self, n):
+        super().generic_visit(n)
+        for fld in ('body', 'orelse', 'finalbody'):
+            b = getattr(n, fld, None)
+            if isinstance(b, list) and b and isinstance(b[0], ast.stmt):
+                setattr(n, fld, self._fix(b))
+        return n
+
+
+class ElseAdd(ast.NodeTransformer):
+    """if c: ...; return   B...   ->   if c: ...; return  else: B..."""
+    def _fix(self, body):
+        for i, st in enumerate(body):
+            if isinstance(st, ast.If) and not st.orelse and _terminal(st.body) and i + 1 < len(body) and not any(isinstance(x, (ast.FunctionDef, ast.AsyncFunctionDef, ast.ClassDef)) for x in body[i + 1:]):
+                count[0] += 1
+                return body[:i] + [ast.If(test=st.test, body=st.body, orelse=self._fix(body[i + 1:]))]
+        return body
+    def generic_visit(self, n):
+        super().generic_visit(n)
+        for fld in ('body', 'orelse', 'finalbody'):
+            b = getattr(n, fld, None)
+            if isinstance(b, list) and b and isinstance(b[0], ast.stmt) and not isinstance(n, (ast.Module, ast.ClassDef)):
+                setattr(n, fld, self._fix(b))
+        return n
+
+
+class Comp2Loop(ast.NodeTransformer):
+    def visit_Assign(self, n):
+        if isinstance(n.value, ast.ListComp) and len(n.value.generators) == 1 and not n.value.generators[0].is_async and len(n.targets) == 1 and isinstance(n.targets[0], ast.Name):
+            g = n.value.generators[0]
+            tname = n.targets[0].id
+            if any(isinstance(x, ast.Name) and x.id == tname for x in ast.walk(n.value)):
+                return n  # `batch = [v[1] for v in batch]`: needs a temporary
+            count[0] += 1
+            app = ast.Expr(value=ast.Call(func=ast.Attribute(value=ast.Name(id=tname, ctx=ast.Load()), attr='append', ctx=ast.Load()), args=[n.value.elt], keywords=[]))
+            body = [app]
+            for c in reversed(g.ifs):
+                body = [ast.If(test=c, body=body, orelse=[])]
+            return [ast.Assign(targets=[n.targets[0]], value=ast.List(elts=[], ctx=ast.Load())), ast.For(target=g.target, iter=g.iter, body=body, orelse=[])]
+        return n
+
+class WhileTrue(ast.NodeTransformer):
+    """while c: B  ->  while True: if not c: break; B     (no else clause)"""
+    def visit_While(self, n):
+        self.generic_visit(n)
+        if not (isinstance(n.test, ast.Constant)) and not n.orelse:
+            count[0] += 1
+            return ast.While(test=ast.Constant(True), body=[ast.If(test=ast.UnaryOp(op=ast.Not(), operand=n.test), body=[ast.Break()], orelse=[])] + n.body, orelse=[])
+        return n
+
+
+class ElsePass(ast.NodeTransformer):
+    def visit_If(self, n):
+        self.generic_visit(n)
+        if not n.orelse:
+            count[0] += 1
+            n.orelse = [ast.Pass()]
+        return n
+
+
+class TestTemp(ast.NodeTransformer):
+    """if f(..): -> _t = f(..); if _t:    (the test is a call; statement lists only)"""
+    def _fix(self, body):
+        out = []
+        for st in body:
+            if isinstance(st, ast.If) and isinstance(st.test, ast.Call) and not any(isinstance(x, (ast.Await, ast.NamedExpr)) for x in ast.walk(st.test)):
+                count[0] += 1
+                nm = f'_t{count[0]}'
+                out.append(ast.Assign(targets=[ast.Name(id=nm, ctx=ast.Store())], value=st.test))
+                st.test = ast.Name(id=nm, ctx=ast.Load())
+            out.append(st)
+        return out
+    def generic_visit(self, n):
+        super().generic_visit(n)
+        for fld in ('body', 'orelse', 'finalbody'):
+            b = getattr(n, fld, None)
+            if isinstance(b, list) and b and isinstance(b[0], ast.stmt) and not (fld == 'orelse' and isinstance(n, ast.If) and len(b) == 1 and isinstance(b[0], ast.If)):
+                setattr(n, fld, self._fix(b))
+        return n
+
+T = {'negcmp': NegCompare, 'splitisi': SplitIsinstance, 'splitwith': SplitWith, 'mergewith': MergeWith, 'tern2if': TernaryToIf, 'if2tern': IfToTernary, 'kwtimeout': KwTimeout, 'postimeout': PosTimeout, 'earlycont': EarlyContinue, 'rettern': RetTern, 'retif': RetIf, 'demorgan': DeMorgan, 'whilecond': WhileCond, 'swapeq': SwapEq, 'splitin': SplitIn, 'dictlit': DictLit, 'unchain': Unchain, 'untuple': Untuple, 'orassign': OrAssign, 'splitexcept': SplitExcept, 'retnone': RetNone, 'elseremove': ElseRemove, 'elseadd': ElseAdd, 'comp2loop': Comp2Loop, 'whiletrue': WhileTrue, 'elsepass': ElsePass, 'testtemp': TestTemp}
 
 
 def apply(name):
